@@ -88,3 +88,80 @@ def replay_framing(inputs, obl):
     if problems:
         return dict(confirmed=True, detail='; '.join(problems[:2]))
     return dict(confirmed=False, detail='three consecutive frames delivered intact, one by one, for every fragmentation tried')
+
+
+def replay_remote_values(inputs, obl):
+    """a live server and client in one process: the value of a remote evaluation (text form, function-call form, proxy, remote dictionary
+    get / set) must be the value the same expression has on the server - structure and integer/real kind included"""
+    import socket
+    import time
+    import numpy as np
+    from klongpy.repl import create_repl, cleanup_repl
+
+    def canon(v):
+        if isinstance(v, np.ndarray):
+            return "[" + " ".join(canon(x) for x in v) + "]"
+        if isinstance(v, list):
+            return "[" + " ".join(canon(x) for x in v) + "]"
+        if isinstance(v, dict):
+            return ":{" + " ".join(f"{canon(k)}->{canon(x)}" for k, x in v.items()) + "}"
+        if isinstance(v, (np.integer, int)) and not isinstance(v, bool):
+            return f"i{int(v)}"
+        if isinstance(v, (np.floating, float)):
+            return f"f{float(v)}"
+        return f"{type(v).__name__}<{v}>"
+    s = socket.socket()
+    s.bind(("127.0.0.1", 0))
+    port = s.getsockname()[1]
+    s.close()
+    srv, srv_loops = create_repl()
+    cli, cli_loops = create_repl()
+    problems = []
+    try:
+        if srv(f'.srv("127.0.0.1:{port}")') != 1:
+            return dict(confirmed=False, detail='server did not start')
+        time.sleep(0.3)
+        cli(f'f::.cli("127.0.0.1:{port}")')
+        cli('d::.clid(f)')
+        for d in ('one::{,x}', 'fst::{1#x}', 'neg::{-x}', 'pair::{x,y}', 's1::,5', 's2::,,7', 's3::,"abc"', 's4::[1 2 3]', 's5::42', 's6::[]', 's7::2.5', 's8::,2.5'):
+            srv(d)
+        exprs = ['+/!10', '[1 2 3]', '2.5', ',5', '1#[9 8 7]', ',,7', ',2.5', '[[1 2]]', '#,5', '[]', '"a"', ',"a"', '0#[1]', '1%0', '[1 [2] 3]']
+        for e in exprs:
+            try:
+                r, l = cli('f("' + e.replace('"', '""') + '")'), srv(e)
+                if canon(r) != canon(l):
+                    problems.append(f'f("{e}") gives {canon(r)}, the server gives {canon(l)}')
+            except Exception as ex:
+                problems.append(f'f("{e}") raised {type(ex).__name__}: {str(ex)[:60]}')
+        for name in ('s1', 's2', 's3', 's4', 's5', 's6', 's7', 's8'):
+            for form in (f"f(:{name})", f"d?:{name}"):
+                try:
+                    r, l = cli(form), srv(name)
+                    if canon(r) != canon(l):
+                        problems.append(f"{form} gives {canon(r)}, the server gives {canon(l)}")
+                except Exception as ex:
+                    problems.append(f"{form} raised {type(ex).__name__}: {str(ex)[:60]}")
+        for form, local in (('f(:one,,3)', 'one(3)'), ('f(:fst,,[4 5 6])', 'fst([4 5 6])'), ('q::f(:one);q(3)', 'one(3)'), ('n::f(:neg);n(4)', 'neg(4)'),
+                            ('p::f(:pair);p(1;2)', 'pair(1;2)'), ('d,:t1,,,8;d?:t1', ',8'),
+                            # a proxy applied inside functions whose own x, y, z are bound: only the proxy's arguments go over the wire
+                            ('h::f(:neg);{h(x)+y}(1;10)', '{neg(x)+y}(1;10)'), ('p::f(:pair);{p(x;y),z}(1;2;3)', '{pair(x;y),z}(1;2;3)'),
+                            ('h::f(:neg);{h(x)*y}/[1 2 3]', '{neg(x)*y}/[1 2 3]'), ("h::f(:neg);h'[1 2 3]", "neg'[1 2 3]")):
+            try:
+                r, l = cli(form), srv(local)
+                if canon(r) != canon(l):
+                    problems.append(f"{form} gives {canon(r)}, the server gives {canon(l)}")
+            except Exception as ex:
+                problems.append(f"{form} raised {type(ex).__name__}: {str(ex)[:60]}")
+    finally:
+        try:
+            cli('.clic(f)')
+        except Exception:
+            pass
+        for loops in (cli_loops, srv_loops):
+            try:
+                cleanup_repl(*loops) if isinstance(loops, tuple) else cleanup_repl(loops)
+            except Exception:
+                pass
+    if problems:
+        return dict(confirmed=True, detail='; '.join(problems[:3]), count=len(problems))
+    return dict(confirmed=False, detail='remote values equal the server-side values on all forms tried')
